@@ -5,25 +5,38 @@
 // MerkleTreeLeafFromChain / MerkleTreeLeafForEmbeddedSCT / ctutil.VerifySCT, and SCT lists
 // through ASN1MarshalSCTs / certificate parsing / ParseSCTsFromSCTList.
 //
-// Three streams: random pairs (one with forcedEKU == nil), the class "EKU lists of the
-// pre-issuer" (ekuClasses) and the class "length boundaries of the re-encoded elements"
-// (boundaries).  References of the direct oracles are independent of the code under test: the same
+// Five streams: random pairs (one with forcedEKU == nil), the class "EKU lists of the
+// pre-issuer" (ekuClasses), the class "length boundaries of the re-encoded elements"
+// (boundaries), the class "criticality flags" (critClasses: the critical flag of one kind of extension,
+// or of all, departs from the issuer's habit; half of the random pairs draw the flags of all their
+// extensions as well) and the class "several SCTs of one log" (sctShapes: embedded lists with two or
+// more SCTs of the log under test, byte-identical duplicates, same-log SCTs that do not verify; the random
+// pairs widen their lists the same way); every embedded SCT and a few that are not embedded are asked
+// for through ctutil.ContainsSCT / VerifySCT / VerifySCTWithVerifier / LeafHash / LeafHashB64.
+// References of the direct oracles are independent of the code under test: the same
 // certificate issued without the poison / SCT list (harness/pki re-assembles serial, validity and
 // every length field by hand), hand-encoded SCT lists and Merkle tree leaves (der.go), issuer key
-// hashes over the standard library's SubjectPublicKeyInfo.
+// hashes over the standard library's SubjectPublicKeyInfo; with a pre-issuer the TBSCertificate of the
+// entry is re-assembled by hand from the octets of the precertificate and of the pre-issuer
+// (handPreIssuerTBS in der.go), SCTs beyond the first are signed over the hand-encoded signature input
+// with the standard library's ECDSA.
 package main
 
 import (
 	"bytes"
 	"crypto"
 	"crypto/ecdsa"
+	crand "crypto/rand"
 	"crypto/sha256"
 	stdx509 "crypto/x509"
+	"encoding/base64"
 	"flag"
 	"fmt"
 	"math/big"
 	mrand "math/rand"
 	"reflect"
+	"sort"
+	"strings"
 	"time"
 
 	ct "github.com/google/certificate-transparency-go"
@@ -104,6 +117,10 @@ type env struct {
 	logKey crypto.Signer
 	logPub crypto.PublicKey
 	missed int // boundary targets that no filler size reaches
+	// rx draws what the later classes added to the random pairs (critical flags, wider SCT lists): a
+	// generator of its own, so that the other draws of a pair of a given seed stay what they were
+	rx *mrand.Rand
+	sv *ct.SignatureVerifier
 }
 
 func main() {
@@ -111,6 +128,12 @@ func main() {
 	e := &env{r: lib.Rand(), w: lib.NewWriter(header, 90), logKey: pki.Key("p256", 9)}
 	defer e.w.Guard()
 	e.logPub = e.logKey.Public()
+	e.rx = mrand.New(mrand.NewSource(lib.Seed()*104729 + 11))
+	sv, err := ct.NewSignatureVerifier(e.logPub)
+	if err != nil {
+		panic(err)
+	}
+	e.sv = sv
 	n := lib.Count(120, 2500)
 	// The two focused classes come first (so that the first failing case of a run is one of their
 	// sharply described inputs when a defect concerns them) and draw from a generator of their own,
@@ -118,6 +141,26 @@ func main() {
 	r := e.r
 	e.r = mrand.New(mrand.NewSource(lib.Seed()*7919 + 3))
 	i := n
+	// class "criticality flags": each target twice in a row, once per issuer (the parity of i)
+	for rep := lib.Count(1, 4); rep > 0; rep-- {
+		for _, c := range critClasses() {
+			for k := 0; k < 2; k++ {
+				c := c
+				e.guarded(i, func() { e.one(i, nil, &c) })
+				i++
+			}
+		}
+	}
+	// class "several SCTs of one log"
+	for rep := lib.Count(1, 4); rep > 0; rep-- {
+		for _, sh := range sctShapes() {
+			for k := 0; k < 2; k++ {
+				sp := pairSpec{shape: sh}
+				e.guarded(i, func() { e.one(i, nil, &sp) })
+				i++
+			}
+		}
+	}
 	// class "length boundaries of the re-encoded elements"
 	for _, b := range boundaries() {
 		e.guarded(i, func() { e.boundary(i, b) })
@@ -126,13 +169,13 @@ func main() {
 	// class "EKU lists of the pre-issuer": every list, with otherwise random certificate content
 	for rep := lib.Count(1, 6); rep > 0; rep-- {
 		for _, l := range ekuClasses() {
-			e.guarded(i, func() { e.one(i, l) })
+			e.guarded(i, func() { e.one(i, l, nil) })
 			i++
 		}
 	}
 	e.r = r
 	for i = 0; i < n; i++ {
-		e.guarded(i, func() { e.one(i, nil) })
+		e.guarded(i, func() { e.one(i, nil, nil) })
 	}
 	e.w.Close()
 	fmt.Printf("c03: wrote %d cases (%d boundary targets unreachable)\n", e.w.Len(), e.missed)
@@ -223,6 +266,314 @@ func ekuOpts(r *mrand.Rand, names []string, o *pki.Opts) (hasCT bool) {
 	return
 }
 
+// ---- the classes "criticality flags" and "several SCTs of one log" ----
+
+// pairSpec fixes, for a pair of one of the two classes, what the random pairs draw.
+type pairSpec struct {
+	crit  string   // which extension's critical flag departs from the issuer's habit (critKinds, "all", "sct")
+	pre   bool     // with a dedicated pre-issuer
+	shape []string // the embedded SCT list (see sctShapes)
+}
+
+// critKinds: the extensions a certificate of the harness can carry besides poison and SCT list, with
+// the critical flag both issuers give them by themselves.
+var critKinds = []struct {
+	name  string
+	oids  []string
+	habit bool
+}{
+	{"aki", []string{"2.5.29.35"}, false},
+	{"ku", []string{"2.5.29.15"}, true},
+	{"eku", []string{"2.5.29.37"}, false},
+	{"bc", []string{"2.5.29.19"}, true},
+	{"ski", []string{"2.5.29.14"}, false},
+	{"san", []string{"2.5.29.17"}, false},
+	{"other", []string{"1.3.6.1.4.1.55555.1.10", "1.3.6.1.4.1.55555.1.11", "1.3.6.1.4.1.55555.1.12", "1.3.6.1.4.1.55555.1.13"}, false},
+}
+
+func critClasses() []pairSpec {
+	var out []pairSpec
+	for _, pre := range []bool{true, false} {
+		for _, k := range critKinds {
+			out = append(out, pairSpec{crit: k.name, pre: pre})
+		}
+		out = append(out, pairSpec{crit: "all", pre: pre}, pairSpec{crit: "sct", pre: pre})
+	}
+	return out
+}
+
+// critFlip: the flags of the class pair; every extension keeps the issuer's habit except the target.
+func critFlip(target string) map[string]bool {
+	m := map[string]bool{}
+	for _, k := range critKinds {
+		if k.name == target || target == "all" {
+			for _, o := range k.oids {
+				m[o] = !k.habit
+			}
+		}
+	}
+	return m
+}
+
+// critDraw: for every kind of extension, the habit, critical or not critical.
+func critDraw(r *mrand.Rand) map[string]bool {
+	m := map[string]bool{}
+	for _, k := range critKinds {
+		for _, o := range k.oids {
+			switch r.Intn(3) {
+			case 0:
+				m[o] = true
+			case 1:
+				m[o] = false
+			}
+		}
+	}
+	return m
+}
+
+func critDesc(m map[string]bool) string {
+	if m == nil {
+		return "issuer's habit"
+	}
+	var l []string
+	for o, c := range m {
+		l = append(l, fmt.Sprintf("%s=%v", o, c))
+	}
+	sort.Strings(l)
+	return "explicit list; " + strings.Join(l, " ")
+}
+
+func without(m map[string]bool, oid string) map[string]bool {
+	if m == nil {
+		return nil
+	}
+	out := map[string]bool{}
+	for o, c := range m {
+		if o != oid {
+			out[o] = c
+		}
+	}
+	return out
+}
+
+// sctShapes: embedded lists around "log", the SCT the log under test issued for the submitted chain.
+// "A": another SCT of the same log for the same precertificate, later timestamp; "A=": the same, with
+// the timestamp of "log" (another signature); "dup": a byte-identical copy of the element before it;
+// "Abad": an SCT with the log's id whose signature does not verify; "B": an SCT of another log.
+func sctShapes() [][]string {
+	return [][]string{
+		{"log", "A"}, {"A", "log"}, {"log", "dup"}, {"log", "A="}, {"log", "B", "A"}, {"log", "A", "A"},
+		{"B", "log", "dup", "A"}, {"Abad", "log"}, {"log", "Abad", "A"}, {"A", "B", "log", "B", "A"}, {"A", "dup", "log", "A="},
+	}
+}
+
+// sctEntry is one element of an embedded list: valid says that the log under test signed it over the
+// precertificate entry with its timestamp.
+type sctEntry struct {
+	sct   *ct.SignedCertificateTimestamp
+	kind  string
+	valid bool
+}
+
+// signHand lets the log under test issue one more SCT for the precertificate entry (tbs, issuer key
+// hash) at ts: RFC 6962 signature input encoded by hand, ECDSA of the standard library.
+func (e *env) signHand(ts uint64, ikh [32]byte, tbs []byte) *ct.SignedCertificateTimestamp {
+	h := sha256.Sum256(handSCTSigInput(ts, ikh, tbs, nil))
+	sig, err := ecdsa.SignASN1(crand.Reader, e.logKey.(*ecdsa.PrivateKey), h[:])
+	if err != nil {
+		panic(err)
+	}
+	s := &ct.SignedCertificateTimestamp{SCTVersion: ct.V1, Timestamp: ts, Signature: ct.DigitallySigned{
+		Algorithm: tls.SignatureAndHashAlgorithm{Hash: tls.SHA256, Signature: tls.ECDSA}, Signature: sig}}
+	s.LogID.KeyID = sha256.Sum256(mustStdSPKI(e.logPub))
+	return s
+}
+
+func copySCT(s *ct.SignedCertificateTimestamp) *ct.SignedCertificateTimestamp {
+	c := *s
+	c.Extensions = append(ct.CTExtensions(nil), s.Extensions...)
+	c.Signature.Signature = append([]byte(nil), s.Signature.Signature...)
+	return &c
+}
+
+// makeEntry builds one element of a list by kind; prev is the element before it (for "dup").
+func (e *env) makeEntry(r *mrand.Rand, kind string, logSCT *ct.SignedCertificateTimestamp, prev *sctEntry, ikh [32]byte, tbs []byte) sctEntry {
+	switch kind {
+	case "log":
+		return sctEntry{logSCT, kind, true}
+	case "A":
+		return sctEntry{e.signHand(logSCT.Timestamp+1+uint64(r.Int63n(100000)), ikh, tbs), kind, true}
+	case "A=":
+		return sctEntry{e.signHand(logSCT.Timestamp, ikh, tbs), kind, true}
+	case "Abad":
+		b := fakeSCT(r)
+		b.LogID, b.Extensions = logSCT.LogID, nil
+		if r.Intn(2) == 0 {
+			b.Timestamp = logSCT.Timestamp // differs from the log's SCT in the signature only
+		}
+		return sctEntry{b, kind, false}
+	case "dup":
+		if prev == nil {
+			panic("harness: dup without an element before it")
+		}
+		return sctEntry{copySCT(prev.sct), kind, prev.valid}
+	}
+	return sctEntry{fakeSCT(r), "B", false}
+}
+
+func entrySCTs(l []sctEntry) (out []*ct.SignedCertificateTimestamp) {
+	for _, x := range l {
+		out = append(out, x.sct)
+	}
+	return
+}
+
+func entryKinds(l []sctEntry) (out []string) {
+	for _, x := range l {
+		out = append(out, x.kind)
+	}
+	return
+}
+
+// widen adds, to the list a random pair drew (the log's SCT among SCTs of other logs), further SCTs
+// of the log under test and byte-identical duplicates at random positions.
+func (e *env) widen(list []sctEntry, logSCT *ct.SignedCertificateTimestamp, ikh [32]byte, tbs []byte) []sctEntry {
+	r := e.rx
+	ins := func(at int, x sctEntry) {
+		list = append(list, sctEntry{})
+		copy(list[at+1:], list[at:])
+		list[at] = x
+	}
+	for n := []int{0, 0, 1, 1, 2, 3}[r.Intn(6)]; n > 0; n-- {
+		ins(r.Intn(len(list)+1), e.makeEntry(r, []string{"A", "A", "A=", "Abad"}[r.Intn(4)], logSCT, nil, ikh, tbs))
+	}
+	if r.Intn(4) == 0 {
+		src := list[r.Intn(len(list))]
+		ins(r.Intn(len(list)+1), sctEntry{copySCT(src.sct), "dup", src.valid})
+	}
+	return list
+}
+
+// listQueries asks for every element of the embedded list, and for two SCTs that are not embedded (a
+// further genuine SCT of the log; an embedded one with its timestamp moved), through the entry points of
+// ctutil.  Direct oracle: ContainsSCT says true exactly for the SCTs whose RFC 6962 serialization (by hand)
+// is an element of the list; with embedded=true VerifySCT / VerifySCTWithVerifier accept exactly the embedded
+// SCTs that the log signed over this precertificate entry, LeafHash / LeafHashB64 give, for an embedded SCT,
+// the hash of the hand-encoded entry (reference TBSCertificate, issuer key hash over the standard library's
+// SubjectPublicKeyInfo, the SCT's timestamp) and fail for one that is not embedded; the precertificate
+// route (embedded=false on the submitted chain) gives the same hash and accepts exactly the genuine SCTs.
+func (e *env) listQueries(i int, chain, fchain []*x509.Certificate, list []sctEntry, wantTBS []byte, ikh [32]byte, fmut string, usePre bool, input map[string]interface{}) {
+	r := e.rx
+	type query struct {
+		sctEntry
+		what string
+	}
+	var qs []query
+	for k, x := range list {
+		qs = append(qs, query{x, fmt.Sprintf("element %d of the embedded list (%s)", k, x.kind)})
+	}
+	var logSCT *ct.SignedCertificateTimestamp
+	for _, x := range list {
+		if x.valid {
+			logSCT = x.sct
+		}
+	}
+	if logSCT != nil {
+		qs = append(qs, query{sctEntry{e.signHand(logSCT.Timestamp+200000+uint64(r.Int63n(100000)), ikh, wantTBS), "A-not-embedded", true}, "a genuine SCT of the log that is not embedded"})
+	}
+	moved := copySCT(list[r.Intn(len(list))].sct)
+	moved.Timestamp += 300000
+	qs = append(qs, query{sctEntry{moved, "moved-timestamp", false}, "an embedded SCT with its timestamp moved"})
+
+	ser := make([][]byte, len(list))
+	for k, x := range list {
+		ser[k] = handSCT(x.sct)
+	}
+	sameLog, dups := 0, 0
+	for k, x := range list {
+		if x.sct.LogID.KeyID == sha256.Sum256(mustStdSPKI(e.logPub)) {
+			sameLog++
+		}
+		for j := 0; j < k; j++ {
+			if bytes.Equal(ser[j], ser[k]) {
+				dups++
+				break
+			}
+		}
+	}
+	changed := fmut == "other-ext-changed" || fmut == "others-reordered"
+	propOK, note := true, ""
+	fail := func(q query, format string, a ...interface{}) {
+		if propOK {
+			propOK, note = false, "asked for "+q.what+" of "+fmt.Sprint(entryKinds(list))+": "+fmt.Sprintf(format, a...)
+		}
+	}
+	var contains, everifies, pverifies, hashOK []bool
+	for _, q := range qs {
+		q := q
+		member := false
+		for _, s := range ser {
+			member = member || bytes.Equal(s, handSCT(q.sct))
+		}
+		ref := sha256.Sum256(append([]byte{0}, handPrecertLeaf(q.sct.Timestamp, ikh, wantTBS)...))
+		var (
+			has                    bool
+			cerr, verr, werr, herr error
+			perr, pherr, berr      error
+			h, ph                  [sha256.Size]byte
+			b64                    string
+		)
+		if try(func() {
+			has, cerr = ctutil.ContainsSCT(fchain[0], q.sct)
+			verr = ctutil.VerifySCT(e.logPub, fchain, q.sct, true)
+			werr = ctutil.VerifySCTWithVerifier(e.sv, fchain, q.sct, true)
+			h, herr = ctutil.LeafHash(fchain, q.sct, true)
+			b64, berr = ctutil.LeafHashB64(fchain, q.sct, true)
+			perr = ctutil.VerifySCT(e.logPub, chain, q.sct, false)
+			ph, pherr = ctutil.LeafHash(chain, q.sct, false)
+		}) {
+			fail(q, "an entry point of ctutil panics")
+			continue
+		}
+		contains, everifies, pverifies = append(contains, has), append(everifies, verr == nil), append(pverifies, perr == nil)
+		hashOK = append(hashOK, herr == nil && h == ref)
+		switch {
+		case cerr != nil || has != member:
+			fail(q, "ContainsSCT = %v (error: %v), the list holds it: %v", has, cerr != nil, member)
+		case (verr == nil) != (member && q.valid && !changed):
+			fail(q, "VerifySCT(embedded) accepts: %v; embedded: %v, signed by the log over this precertificate: %v, final certificate corresponds: %v", verr == nil, member, q.valid, !changed)
+		case (werr == nil) != (verr == nil):
+			fail(q, "VerifySCTWithVerifier(embedded) accepts: %v, VerifySCT: %v", werr == nil, verr == nil)
+		case (herr == nil) != member || (berr == nil) != member:
+			fail(q, "LeafHash(embedded) succeeds: %v, LeafHashB64: %v; embedded: %v", herr == nil, berr == nil, member)
+		case member && !changed && h != ref:
+			fail(q, "LeafHash(embedded) is not the hash of the RFC 6962 precertificate entry with the SCT's timestamp")
+		case member && changed && h == ref:
+			fail(q, "LeafHash(embedded) of a certificate that differs gives the hash of the entry the log signed")
+		case member && b64 != base64.StdEncoding.EncodeToString(h[:]):
+			fail(q, "LeafHashB64(embedded) is not the base64 text of LeafHash")
+		case (perr == nil) != q.valid:
+			fail(q, "precertificate route: VerifySCT accepts: %v, signed by the log over this precertificate: %v", perr == nil, q.valid)
+		case pherr != nil || ph != ref:
+			fail(q, "precertificate route: LeafHash is not the hash of the RFC 6962 precertificate entry with the SCT's timestamp")
+		}
+	}
+	input["op"], input["mutation"], input["preissuer"] = "query-embedded-scts", fmut, usePre
+	input["list"], input["queries"] = entryKinds(list), len(qs)
+	cap3 := func(n int) int {
+		if n > 3 {
+			return 3
+		}
+		return n
+	}
+	e.w.Add(lib.Case{
+		Key: fmt.Sprintf("e2e-list-%d", i), Input: input,
+		Impl:   map[string]interface{}{"contains": contains, "embedded_verifies": everifies, "precert_route_verifies": pverifies, "embedded_leaf_hash_is_reference": hashOK},
+		PropOK: propOK, Note: note,
+		Tags: []string{fmt.Sprintf("sct-queries:len=%d", cap3(len(list))), fmt.Sprintf("sct-queries:of-the-log=%d", cap3(sameLog)), fmt.Sprintf("sct-queries:identical=%d", cap3(dups)), "sct-queries:" + fmut},
+	})
+}
+
 // ---- certificate content shared by a precertificate, its reference and its final certificate ----
 
 type content struct {
@@ -233,6 +584,7 @@ type content struct {
 	nb, na   time.Time
 	leafKind string
 	leafSKI  []byte
+	recrit   map[string]bool // critical flags by object identifier (nil: the issuer's habit), see certOpts.Recrit
 }
 
 func (c content) issue(extra []pkix.Extension, parent *pki.Entity, noAKI bool) *pki.Entity {
@@ -242,7 +594,7 @@ func (c content) issue(extra []pkix.Extension, parent *pki.Entity, noAKI bool) *
 	if c.bare {
 		o.DNSNames, o.EKUs, o.NoBC = nil, nil, true
 	}
-	return issue(c.std, certOpts{Opts: o, NoKeyUsage: c.bare, NoAKI: noAKI}, parent)
+	return issue(c.std, certOpts{Opts: o, NoKeyUsage: c.bare, NoAKI: noAKI, Recrit: c.recrit}, parent)
 }
 
 func drawSerial(r *mrand.Rand) *big.Int {
@@ -274,7 +626,8 @@ func drawValidity(r *mrand.Rand) (time.Time, time.Time) {
 // ---- the steps of a pair, each emitting its case(s) ----
 
 // build runs BuildPrecertTBS and emits the CBuild case.  ref, when given, is the TBSCertificate of the
-// same certificate issued without the poison extension.
+// same certificate issued without the poison extension (direct issuer) or the TBSCertificate re-assembled
+// by hand from the precertificate and the pre-issuer (handPreIssuerTBS).
 func (e *env) build(tbs []byte, preCert *x509.Certificate, preCoq string, expectOK bool, mut string, ref []byte, input map[string]interface{}, tags []string) (built []byte, coq string, ok bool) {
 	var berr error
 	pan := try(func() { built, berr = x509.BuildPrecertTBS(tbs, preCert) })
@@ -290,6 +643,10 @@ func (e *env) build(tbs []byte, preCert *x509.Certificate, preCoq string, expect
 		// (same issuer, serial, validity, key, other extensions in the same order) has, byte for byte,
 		// the TBSCertificate that de-poisoning must produce
 		propOK, note = false, "BuildPrecertTBS output differs from the TBSCertificate of the same certificate issued without the poison extension"
+		if preCert != nil {
+			// with a pre-issuer the reference is handPreIssuerTBS
+			note = "BuildPrecertTBS output differs from the TBSCertificate re-assembled by hand: poison removed, issuer and authority key identifier value of the pre-issuer, every other octet, place and critical flag kept"
+		}
 	}
 	coq = fmt.Sprintf("CBuild %s %s (%s)", lib.Bytes(tbs), preCoq, obsBytes(built, berr, pan))
 	input["op"] = "build-precert-tbs"
@@ -516,12 +873,21 @@ func certs(es ...*pki.Entity) []*x509.Certificate {
 // one runs one random certificate pair through both routes.  forcedEKU (a list of usage names, see
 // ekuOIDs) fixes the extended key usages of the certificate in the pre-issuer position and switches
 // the perturbations of the precertificate off, so that the pair always reaches the entry construction.
-func (e *env) one(i int, forcedEKU []string) {
+//
+// sp, when given, makes the pair one of the class "criticality flags" (sp.crit: certificates with every
+// kind of extension, key identifiers on all sides, the flag of the target departing from the issuer's
+// habit) or of the class "several SCTs of one log" (sp.shape); both without perturbations.
+func (e *env) one(i int, forcedEKU []string, sp *pairSpec) {
 	r := e.r
 	forced := forcedEKU != nil
+	quiet := forced || sp != nil // no perturbations
+	full := sp != nil && sp.crit != ""
 	std := i%2 == 1        // every other pair comes from the standard library's issuer
 	bare := r.Intn(3) == 0 // certificates whose only extensions are the extra ones
-	caWithSKI := r.Intn(4) != 0 && !bare
+	if full {
+		bare = false
+	}
+	caWithSKI := (r.Intn(4) != 0 || full) && !bare
 	var caSKI []byte
 	if caWithSKI {
 		caSKI = make([]byte, 20)
@@ -539,6 +905,9 @@ func (e *env) one(i int, forcedEKU []string) {
 	}
 	ca := issue(std, caOpts, root)
 	usePre := r.Intn(2) == 0 || forced
+	if full {
+		usePre = sp.pre
+	}
 	// with the standard library's issuer a CA always has a subject key id; its children carry no authority
 	// key id where noAKI says so (bare certificates; children of a pre-issuer with a hand-made authority key id,
 	// which BuildPrecertTBS then appends at the end)
@@ -548,18 +917,18 @@ func (e *env) one(i int, forcedEKU []string) {
 	ekuTag := "eku:none"
 	if usePre {
 		var piSKI []byte
-		if r.Intn(3) != 0 && !bare {
+		if (r.Intn(3) != 0 || full) && !bare {
 			piSKI = make([]byte, 20)
 			r.Read(piSKI)
 		}
 		names := []string{"ct"}
-		if r.Intn(12) == 0 {
+		if r.Intn(12) == 0 && !quiet {
 			names = []string{"serverAuth"} // not a real pre-issuer
 		}
 		// the pre-issuer's own authority key id, in the three forms RFC 5280 allows; custom forms are
 		// only possible when the CA has no subject key id (CreateCertificate would add its own)
 		var piExtra []pkix.Extension
-		if (std || (caSKI == nil && piSKI == nil)) && r.Intn(2) == 0 {
+		if (std || (caSKI == nil && piSKI == nil)) && r.Intn(2) == 0 && !full {
 			piExtra = []pkix.Extension{{Id: x509.OIDExtensionAuthorityKeyId, Value: akiValue(r, ca.Cert)}}
 			noAKI = true
 		}
@@ -570,7 +939,7 @@ func (e *env) one(i int, forcedEKU []string) {
 		switch {
 		case std:
 			o.EKUNames = names
-			o.NoAKI = piExtra == nil && r.Intn(4) == 0 // a pre-issuer without authority key id
+			o.NoAKI = piExtra == nil && r.Intn(4) == 0 && !full // a pre-issuer without authority key id
 			for _, n := range names {
 				hasCT = hasCT || n == "ct"
 			}
@@ -585,6 +954,9 @@ func (e *env) one(i int, forcedEKU []string) {
 	}
 	// the certificate content
 	nExtra := r.Intn(4)
+	if full && nExtra == 0 {
+		nExtra = 1
+	}
 	var others []pkix.Extension
 	for k := 0; k < nExtra; k++ {
 		others = append(others, randExt(r, k))
@@ -592,9 +964,27 @@ func (e *env) one(i int, forcedEKU []string) {
 	c := content{i: i, std: std, bare: bare, serial: drawSerial(r)}
 	c.nb, c.na = drawValidity(r)
 	c.leafKind = keyKinds[r.Intn(len(keyKinds))]
-	if r.Intn(2) == 0 && !bare {
+	if (r.Intn(2) == 0 || full) && !bare {
 		c.leafSKI = make([]byte, 20)
 		r.Read(c.leafSKI)
+	}
+	// the critical flags: the issuer's habit, or (class pairs; half of the others) an explicit list
+	sctCrit := false
+	switch {
+	case full:
+		c.recrit, sctCrit = critFlip(sp.crit), sp.crit == "sct" || sp.crit == "all"
+	case e.rx.Intn(2) == 0:
+		c.recrit, sctCrit = critDraw(e.rx), e.rx.Intn(6) == 0
+	}
+	critTag := "crit:habit"
+	if c.recrit != nil {
+		critTag = "crit:explicit"
+	}
+	if full {
+		critTag = fmt.Sprintf("crit-class:%s:pre=%v:%s", sp.crit, sp.pre, issuerName(std))
+	}
+	sctExt := func(v []byte) pkix.Extension {
+		return pkix.Extension{Id: x509.OIDExtensionCTSCT, Critical: sctCrit, Value: v}
 	}
 	pi := r.Intn(len(others) + 1)
 	precertParent := ca
@@ -605,7 +995,7 @@ func (e *env) one(i int, forcedEKU []string) {
 	mut := "none"
 	switch r.Intn(10) {
 	case 0:
-		if !forced {
+		if !quiet {
 			precertExts = others
 			mut = "no-poison"
 		}
@@ -614,7 +1004,7 @@ func (e *env) one(i int, forcedEKU []string) {
 		if r.Intn(2) == 0 {
 			at = 0
 		}
-		if !forced {
+		if !quiet {
 			precertExts = insertAt(precertExts, at, pki.PoisonExt())
 			mut = "poison-twice"
 		}
@@ -627,18 +1017,28 @@ func (e *env) one(i int, forcedEKU []string) {
 		preCoq = preissuerCoq(preCert, hasCT)
 	}
 	tbs := precert.Cert.RawTBSCertificate
-	if r.Intn(15) == 0 && !forced {
+	if r.Intn(15) == 0 && !quiet {
 		tbs = append(append([]byte{}, tbs...), 0)
 		mut += "+trailing"
 	}
 	input := func() map[string]interface{} {
-		return map[string]interface{}{"issuer": issuerName(std), "bare": bare, "preissuer": usePre, "preissuer_eku": ekuTag, "mutation": mut, "others": nExtra, "poison_at": pi, "leaf_key": c.leafKind}
+		return map[string]interface{}{"issuer": issuerName(std), "bare": bare, "preissuer": usePre, "preissuer_eku": ekuTag, "mutation": mut, "others": nExtra, "poison_at": pi, "leaf_key": c.leafKind,
+			"critical_flags": critDesc(c.recrit), "sct_list_critical": sctCrit}
 	}
 	var ref []byte
 	if mut == "none" && !usePre {
 		ref = refTBS(c.issue(others, ca, noAKI))
 	}
-	built, bcoq, ok := e.build(tbs, preCert, preCoq, mut == "none" && (!usePre || hasCT), mut, ref, input(), []string{"build:" + mut, fmt.Sprintf("preissuer=%v", usePre), ekuTag})
+	if mut == "none" && usePre && hasCT {
+		// with a pre-issuer: the TBSCertificate re-assembled by hand from the octets of the precertificate
+		// and of the pre-issuer (every extension keeps its place and its critical flag)
+		hand, hok := handPreIssuerTBS(precert.Cert.RawTBSCertificate, preIss.DER)
+		if !hok {
+			panic("harness: cannot take the precertificate or the pre-issuer apart")
+		}
+		ref = hand
+	}
+	built, bcoq, ok := e.build(tbs, preCert, preCoq, mut == "none" && (!usePre || hasCT), mut, ref, input(), []string{"build:" + mut, fmt.Sprintf("preissuer=%v", usePre), ekuTag, critTag})
 	// who issues the final certificate, and the certificates from there upwards
 	issuer, tail := ca, certs(ca, root)
 	if usePre && !hasCT && mut == "none" {
@@ -669,12 +1069,27 @@ func (e *env) one(i int, forcedEKU []string) {
 	if !ok {
 		return
 	}
+	ikh := sha256.Sum256(mustStdSPKI(issuer.Key.Public()))
 	// a few more SCTs (other logs) for the embedded list
-	scts := []*ct.SignedCertificateTimestamp{sct}
+	entries := []sctEntry{{sct, "log", true}}
 	for k := r.Intn(3); k > 0; k-- {
-		scts = append(scts, fakeSCT(r))
+		entries = append(entries, sctEntry{fakeSCT(r), "B", false})
 	}
-	r.Shuffle(len(scts), func(a, b int) { scts[a], scts[b] = scts[b], scts[a] })
+	r.Shuffle(len(entries), func(a, b int) { entries[a], entries[b] = entries[b], entries[a] })
+	// and more of the log under test: the same precertificate signed again, byte-identical duplicates
+	if sp != nil && sp.shape != nil {
+		entries = nil
+		for k, kind := range sp.shape {
+			var prev *sctEntry
+			if k > 0 {
+				prev = &entries[k-1]
+			}
+			entries = append(entries, e.makeEntry(e.rx, kind, sct, prev, ikh, wantTBS))
+		}
+	} else {
+		entries = e.widen(entries, sct, ikh, wantTBS)
+	}
+	scts := entrySCTs(entries)
 	extVal, ok := e.sctList(scts)
 	if !ok {
 		return
@@ -692,43 +1107,54 @@ func (e *env) one(i int, forcedEKU []string) {
 				preIssAKI = true
 				if !hasExt(precert.Cert, x509.OIDExtensionAuthorityKeyId) {
 					others = append(append([]pkix.Extension{}, others...), pkix.Extension{Id: x.Id, Value: x.Value})
+					c.recrit = without(c.recrit, "2.5.29.35") // the appended one is not critical
 				}
 			}
 		}
 		noAKI = !(preIssAKI && hasExt(precert.Cert, x509.OIDExtensionAuthorityKeyId))
 	}
 	sj := r.Intn(len(others) + 1)
-	finalExts := insertAt(others, sj, pkix.Extension{Id: x509.OIDExtensionCTSCT, Value: extVal})
+	finalExts := insertAt(others, sj, sctExt(extVal))
 	fmut := "none"
-	switch r.Intn(10) {
+	fdraw := r.Intn(10)
+	if sp != nil {
+		fdraw = 9
+	}
+	switch fdraw {
 	case 0:
 		at := r.Intn(len(finalExts) + 1)
 		if r.Intn(2) == 0 {
 			at = 0
 		}
-		finalExts = insertAt(finalExts, at, pkix.Extension{Id: x509.OIDExtensionCTSCT, Value: extVal})
+		finalExts = insertAt(finalExts, at, sctExt(extVal))
 		fmut = "sct-twice"
 	case 1:
 		if len(others) > 0 { // a different "other" extension: not the certificate the log signed
 			alt := append([]pkix.Extension{}, others...)
 			alt[0] = randExt(r, 77)
-			finalExts = insertAt(alt, sj, pkix.Extension{Id: x509.OIDExtensionCTSCT, Value: extVal})
+			finalExts = insertAt(alt, sj, sctExt(extVal))
 			fmut = "other-ext-changed"
 		}
 	case 2:
 		if len(others) > 1 {
 			alt := append([]pkix.Extension{}, others...)
 			alt[0], alt[1] = alt[1], alt[0]
-			finalExts = insertAt(alt, sj, pkix.Extension{Id: x509.OIDExtensionCTSCT, Value: extVal})
+			finalExts = insertAt(alt, sj, sctExt(extVal))
 			fmut = "others-reordered"
 		}
 	}
 	final := c.issue(finalExts, issuer, noAKI)
-	_, rcoq := e.removeSct(final.Cert.RawTBSCertificate, built, fmut, ref, map[string]interface{}{"issuer": issuerName(std), "sct_at": sj, "preissuer": usePre, "preissuer_eku": ekuTag}, nil)
+	fin := func() map[string]interface{} {
+		return map[string]interface{}{"issuer": issuerName(std), "sct_at": sj, "preissuer": usePre, "preissuer_eku": ekuTag, "critical_flags": critDesc(c.recrit), "sct_list_critical": sctCrit}
+	}
+	_, rcoq := e.removeSct(final.Cert.RawTBSCertificate, built, fmut, ref, fin(), []string{critTag})
 	if fmut != "sct-twice" {
 		e.parseBack(final.Cert, scts, extVal)
 	}
 	e.endToEnd(i, rcoq, chain, append(certs(final), tail...), leaf, sct, ts, fmut, usePre)
+	if fmut != "sct-twice" {
+		e.listQueries(i, chain, append(certs(final), tail...), entries, wantTBS, ikh, fmut, usePre, fin())
+	}
 }
 
 // ---- the class "length boundaries of the re-encoded elements" ----
@@ -892,6 +1318,21 @@ func (e *env) boundary(i int, b bnd) {
 	_, rcoq := e.removeSct(final.Cert.RawTBSCertificate, built, "none", ref, in, []string{btag})
 	e.parseBack(final.Cert, all, extVal)
 	e.endToEnd(i, rcoq, chain, append(certs(final), tail...), leaf, sct, ts, "none", false)
+	var entries []sctEntry
+	for _, x := range all {
+		entries = append(entries, sctEntry{x, map[bool]string{true: "log", false: "B"}[x == sct], x == sct})
+	}
+	in = input()
+	in["sct_at"] = sj
+	e.listQueries(i, chain, append(certs(final), tail...), entries, ref, sha256.Sum256(mustStdSPKI(ca.Key.Public())), "none", false, in)
+}
+
+func mustStdSPKI(pub interface{}) []byte {
+	b, err := stdx509.MarshalPKIXPublicKey(pub)
+	if err != nil {
+		panic(err)
+	}
+	return b
 }
 
 func mustSPKI(pub interface{}) []byte {
